@@ -140,6 +140,9 @@ class Ctx:
     def scale(self, quick: int, thorough: int) -> int:
         """Case count for this shard (totals are divided over the shards)."""
         total = quick if self.quick else thorough
+        # VERIF_SCALE (default 1) multiplies every case budget; used for experiments / deeper ad-hoc runs only,
+        # registered commands leave it unset
+        total = int(total * float(os.environ.get("VERIF_SCALE", "1")))
         return max(1, total // self.nshards)
 
     def derived_seed(self, salt: int = 0) -> int:
